@@ -119,6 +119,7 @@ class H2Peer:
         self._hdr_end_stream = False
         self.next_sid = 1
         self.consumed_unacked: Dict[int, int] = {}
+        self._pending_settings: List[Dict[int, int]] = []
         self.pushes: List[Tuple[int, int, Headers]] = []
         self.upgraded_101: Optional[bytes] = None
 
@@ -267,6 +268,15 @@ class H2Peer:
         return f.serialize()
 
     def settings(self, settings: Dict[int, int]) -> bytes:
+        """Send SETTINGS; they bind the server only once it has acknowledged them (RFC 7540 6.5.3),
+        so the ledger applies them when the ACK arrives."""
+        self._pending_settings.append(dict(settings))
+        return hf.SettingsFrame(0, settings=settings).serialize()
+
+    def _apply_acked_settings(self) -> None:
+        if not self._pending_settings:
+            return
+        settings = self._pending_settings.pop(0)
         if S_INITIAL_WINDOW_SIZE in settings:
             delta = settings[S_INITIAL_WINDOW_SIZE] - self.our_initial_window
             self.our_initial_window = settings[S_INITIAL_WINDOW_SIZE]
@@ -274,7 +284,6 @@ class H2Peer:
                 s.recv_window += delta
         if S_MAX_FRAME_SIZE in settings:
             self.our_max_frame = settings[S_MAX_FRAME_SIZE]
-        return hf.SettingsFrame(0, settings=settings).serialize()
 
     def ping(self, payload: bytes = b"\0" * 8) -> bytes:
         self.pings.append(payload)
@@ -333,6 +342,8 @@ class H2Peer:
         if isinstance(frame, hf.SettingsFrame):
             if "ACK" in frame.flags:
                 self.settings_acks += 1
+                if self.settings_acks > 1:  # the first ACK answers the preface SETTINGS
+                    self._apply_acked_settings()
             else:
                 self.settings_frames += 1
                 for k, v in frame.settings.items():
@@ -382,11 +393,11 @@ class H2Peer:
             s = self._stream(sid)
             self._note_stream_frame(s)
             flow = frame.flow_controlled_length
-            if flow > s.recv_window:
+            if flow > 0 and flow > s.recv_window:
                 self.flow_violations.append(
                     f"DATA of {flow} on stream {sid} exceeds stream window {s.recv_window}"
                 )
-            if flow > self.conn_recv_window:
+            if flow > 0 and flow > self.conn_recv_window:
                 self.flow_violations.append(
                     f"DATA of {flow} on stream {sid} exceeds connection window {self.conn_recv_window}"
                 )
